@@ -199,7 +199,8 @@ def observe_node(d, name, sig):
         calls = [c for c in mod.REC if c[0] == name]
         res = {"seen": bool(calls), "p": [_tok(x, mod) for x in calls[-1][1]] if calls else [],
                "k": sorted([n, _tok(x, mod)] for n, x in calls[-1][2].items()) if calls else []}
-        return res, dict(err, cls=type(e).__name__, msg=str(e).strip().splitlines()[-1][:160] if str(e).strip() else "")
+        lines = [x.strip() for x in str(e).splitlines() if x.strip(" ^\t")]
+        return res, dict(err, cls=type(e).__name__, msg=(lines[1] if len(lines) > 1 else (lines[0] if lines else ""))[:200])
     if d["kind"] == "bind":
         if not isinstance(v, functools.partial) or v.func is not target:
             return {"seen": False, "p": [], "k": []}, dict(err, cls="NotAPartialOfTheTarget", msg=repr(v)[:160])
@@ -236,22 +237,28 @@ def node_trace(tid, d, name, sig):
                    dict(res, e="Resolve"), {"e": "Invoke", "out": o}]}
 
 
-def variants_of(beh):
+def variants_of(beh, tier="thorough"):
+    """how the argument values reach the node: written in place, cross-referenced (keys in reverse order), returned by
+    nested calls, or the second half of the keys supplied by a later merge stage.  thorough: all of them for every
+    behaviour; quick: in place + one of the others in rotation"""
     form, n = beh["form"], len(beh["args"])
     if form in ("name", "scalar") or n == 0:
         return [("static", "fwd")]
     vs = [("static", "fwd"), ("xref", "rev"), ("nested", "fwd")]
     if form == "map" and n >= 2:
         vs.append(("split", "fwd"))
+    if tier == "quick":
+        return [vs[0], vs[1 + beh["id"] % (len(vs) - 1)]]
     return vs
 
 
 _SIGS = None
+_TIER = "thorough"
 
 
-def _func_init(sigs):
-    global _SIGS
-    _SIGS = sigs
+def _func_init(sigs, tier="thorough"):
+    global _SIGS, _TIER
+    _SIGS, _TIER = sigs, tier
     if REPO not in sys.path:
         sys.path.insert(0, REPO)
     install_targets({"s%d" % (i + 1): s for i, s in enumerate(sigs)})
@@ -270,12 +277,13 @@ def _func_replay_one(beh):
     sig = _SIGS[beh["sig"] - 1]
     name = "s%d" % beh["sig"]
     bad = []
-    for variant, order in variants_of(beh):
+    vs = variants_of(beh, _TIER)
+    for variant, order in vs:
         d = {"kind": beh["kind"], "form": beh["form"], "written": written_of(beh), "variant": variant, "order": order}
         res, out = observe_node(d, name, sig)
         if norm_out(out) != norm_out(beh["intended"]):
             bad.append((d, norm_out(out), out.get("cls", ""), out.get("msg", "")))
-    return beh["id"], len(variants_of(beh)), bad
+    return beh["id"], len(vs), bad
 
 
 def _func_record_one(args):
@@ -400,7 +408,8 @@ def gen_universe13(docs_expr, range_expr="WholeRange", timeout=900):
                 uni = {"docs": v["universe"], "range": v["range"]}
         if uni is None:
             raise E.MachineryError("GenUni_C13 did not print the universe " + docs_expr + "\n" + r["out"][-2000:])
-        tmp = path + ".tmp%d" % os.getpid()
+        import threading
+        tmp = path + ".tmp%d_%d" % (os.getpid(), threading.get_ident())
         json.dump(uni, open(tmp, "w"))
         os.replace(tmp, path)
         return path, uni
@@ -619,9 +628,32 @@ def _run(tier, seed, wd):
     ks = known_switches()
     nontrivial = set()
 
+    # ---- every TLC-only job is started now and collected where it is needed (4 JVMs at a time)
+    from concurrent.futures import ThreadPoolExecutor
+    E.gen_universe = gen_universe13      # engine.exhaustive evaluates universes through GenUni.tla, which does not extend Props_C13
+    tp = ThreadPoolExecutor(4)
+    fut = {"func_intended": tp.submit(run_mc_func, wd, "func_intended", FUNC_INVARIANTS)}
+    for docs_name, drange in sorted({(e[0], e[3]) for e in MERGE_EXH[tier]} | {("C13_Docs3", "C13_Range3")}):
+        gen_universe13(docs_name, drange)
+    for docs_name, smin, smax, drange in sorted(MERGE_EXH[tier], key=lambda e: e[0] != "C13_Docs"):
+        fut["exh_" + docs_name] = tp.submit(E.exhaustive, PROP, docs_name, smin, smax, ["Inv_C13"], _sub(wd, "exh_%s_%d" % (docs_name, smax)),
+                                            module="MC_C13", doc_range=drange)
+    for sw in ks:
+        fut["asis_" + sw] = tp.submit(run_mc_func, wd, "func_asis_" + sw, [], sw)
+    for sw, mu in FUNC_MUTATIONS:
+        fut["fmut_" + (sw or mu)] = tp.submit(run_mc_func, wd, "func_mut_" + (sw or mu),
+                                              ["Inv_PassesAsPython", "Inv_BindIsPartial", "Inv_PartialCompletes"], sw, mu, False)
+    fut["witness13"] = tp.submit(E.exhaustive, PROP, "C13_Docs3", 2, 2, ["NotWitness13"], _sub(wd, "witness13"), module="MC_C13",
+                                 doc_range="C13_Range3", emit=False)
+    for mu in MERGE_MUTATIONS:
+        fut["mmut_" + mu["mutation"]] = tp.submit(E.exhaustive, PROP, "C13_Docs3", 2, 2, ["Inv_C13"], _sub(wd, "mut_" + mu["mutation"]),
+                                                  module="MC_C13", mutation=mu["mutation"], emit=False, doc_range="C13_Range3",
+                                                  next_=mu.get("next", "Next"))
+    tp.shutdown(wait=False)
+
     # ============ (1) argument passing ============================================================
     # ---- F1: TLC decides the three properties on the intended design and prints every node life
-    r, behs, sigs = run_mc_func(wd, "func_intended", FUNC_INVARIANTS)
+    r, behs, sigs = fut["func_intended"].result()
     if r["violated"] or not behs or sigs is None:
         raise E.MachineryError("MC_Func: the specification itself violates %s (or printed nothing)\n%s" % (r["violated"], r["out"][-3000:]))
     cov["configs"].append({"module": "MC_Func", "signatures": len(sigs), "behaviours": len(behs), "states": r["distinct"],
@@ -634,14 +666,14 @@ def _run(tier, seed, wd):
     _lap('F1 intended')
     asis = {}
     for sw in ks:
-        r2, behs2, _ = run_mc_func(wd, "func_asis_" + sw, [], switch=sw)
+        r2, behs2, _ = fut["asis_" + sw].result()
         cov["states"] += r2["distinct"]
         cov["transitions"] += r2["generated"]
         asis[sw] = {beh_key(b): norm_out(b["want"]) for b in behs2}
     _lap('F1 asis')
     # ---- F2: every behaviour replayed (x value variants) through Config.build
     t0 = time.time()
-    with mp.Pool(16, initializer=_func_init, initargs=(sigs,)) as pool:
+    with mp.Pool(16, initializer=_func_init, initargs=(sigs, tier)) as pool:
         res = pool.map(_func_replay_one, behs, chunksize=64)
     builds = sum(n for _, n, _ in res)
     n_bad = 0
@@ -727,8 +759,7 @@ def _run(tier, seed, wd):
     _lap('F4 validate')
     # ---- FM: mutation cfgs (vacuity guard)
     for sw, mu in FUNC_MUTATIONS:
-        rm, _, _ = run_mc_func(wd, "func_mut_" + (sw or mu), ["Inv_PassesAsPython", "Inv_BindIsPartial", "Inv_PartialCompletes"],
-                               switch=sw, mutation=mu, emit=False)
+        rm, _, _ = fut["fmut_" + (sw or mu)].result()
         cov["mutations"].append({"mutation": sw or mu, "module": "MC_Func", "refuted_by_tlc": bool(rm["violated"]),
                                  "violated": rm["violated"], "tlc_wall_s": round(rm["wall"], 1)})
         if not rm["violated"]:
@@ -742,11 +773,9 @@ def _run(tier, seed, wd):
 
     _lap('FM mutations')
     # ============ (2) merge table ==================================================================
-    E.gen_universe = gen_universe13      # engine.exhaustive evaluates universes through GenUni.tla, which does not extend Props_C13
     mismatch, tid_info, next_tid, replayed = [], {}, 1000000, 0
     for docs_name, smin, smax, drange in MERGE_EXH[tier]:
-        sub = _sub(wd, "exh_%s_%d" % (docs_name, smax))
-        ex = E.exhaustive(PROP, docs_name, smin, smax, ["Inv_C13"], sub, module="MC_C13", doc_range=drange)
+        ex = fut["exh_" + docs_name].result()
         if ex["violated"]:
             cex = ex["cex"]
             shown = ("\n".join("---\n" + S.render_doc(d) for d in cex["docs"]) + "\nmodel: " + json.dumps(cex["x"])) if cex else ex["raw"]["out"][-3000:]
@@ -774,7 +803,7 @@ def _run(tier, seed, wd):
             next_tid += 1
         # witness: some history is inside the domain and decided by the table
         if docs_name == "C13_Docs3":
-            exw = E.exhaustive(PROP, docs_name, 2, 2, ["NotWitness13"], _sub(wd, "witness13"), module="MC_C13", doc_range=drange, emit=False)
+            exw = fut["witness13"].result()
             if "NotWitness13" not in exw["violated"]:
                 raise E.MachineryError("MC_C13: no history of %s is judged by the table (the invariant would be vacuous)" % docs_name)
     cov["traces_validated_against_impl"] += replayed
@@ -830,8 +859,7 @@ def _run(tier, seed, wd):
 
     _lap('M3 validate')
     for mu in MERGE_MUTATIONS:
-        ex = E.exhaustive(PROP, "C13_Docs3", 2, 2, ["Inv_C13"], _sub(wd, "mut_" + mu["mutation"]), module="MC_C13", mutation=mu["mutation"],
-                          emit=False, doc_range="C13_Range3", next_=mu.get("next", "Next"))
+        ex = fut["mmut_" + mu["mutation"]].result()
         cov["mutations"].append({"mutation": mu["mutation"], "module": "MC_C13", "universe": "C13_Docs3", "refuted_by_tlc": bool(ex["violated"]),
                                  "violated": ex["violated"], "tlc_wall_s": round(ex["wall"], 1)})
         if not ex["violated"]:
